@@ -52,7 +52,7 @@ type estimator interface {
 // carries besides its hashes (shard ids: 0 -> 0 B, 999 -> 3 B, META/ALL -> 6 B; type:
 // TxBlock -> 0 B, RewardsBlock -> 3 B). The calibration miniblock has 6 such bytes. A failure
 // at or above the listed m is the known finding; anything below (or any other class) alarms.
-var knownFirstFailing = map[int]int{}
+var knownFirstFailing = map[int]int{15: 4368, 12: 6567, 9: 16752}
 
 const knownSig = "accepted-body-over-network-limit:miniblock-count-at-or-above-measured-threshold-for-its-field-width"
 
